@@ -39,13 +39,19 @@ def strip_opt(t):
 
 def union(ts: Iterable[tuple]) -> tuple:
     flat = []
+    optional = False
     for t in ts:
         if t == BOTTOM:
             continue
+        if t[0] == 'opt':
+            optional = True
+            t = t[1]
         if t[0] == 'union':
             flat.extend(t[1])
         else:
             flat.append(t)
+    if optional:
+        flat.append(NONE)
     uniq = []
     for t in flat:
         if t not in uniq:
